@@ -624,6 +624,87 @@ func stalled(c *lib.Ctx, rng *lib.RNG, fails *[]lib.OracleFail) {
 	c.Count(fmt.Sprintf("stalled-%d", n))
 }
 
+// busy: consumers read (Next, Decode) on their own goroutines WHILE the writer works – every event is decoded
+// at the moment later mutations emit; afterwards every consumer has every event, in order. (Seeded change c13m:
+// Decode held the stream's lock and Emit skipped a stream whose lock was busy – an event emitted while the
+// consumer decoded an earlier one was lost.)
+func busy(c *lib.Ctx, rng *lib.RNG, fails *[]lib.OracleFail) {
+	st := store.New()
+	ctx := context.Background()
+	nW := 3
+	n := c.Scale(4000, 30000)
+	type got struct {
+		evs []ev
+		err string
+	}
+	res := make([]chan got, nW)
+	var ss []store.Stream
+	for i := 0; i < nW; i++ {
+		s, err := st.Watch(ctx, nil)
+		if err != nil {
+			*fails = append(*fails, lib.OracleFail{Class: "watch-error", What: err.Error()})
+			return
+		}
+		ss = append(ss, s)
+		res[i] = make(chan got, 1)
+		go func(s store.Stream, out chan got) {
+			var g got
+			for len(g.evs) < n {
+				e, ok, err := next(s, 10*time.Second)
+				if err != nil {
+					g.err = err.Error()
+					break
+				}
+				if !ok {
+					g.err = fmt.Sprintf("Next returned false after %d events (10 s without an event)", len(g.evs))
+					break
+				}
+				g.evs = append(g.evs, e)
+			}
+			out <- g
+		}(s, res[i])
+	}
+	for i := 0; i < n; i++ {
+		ok, _ := lib.WithTimeout(20*time.Second, func() { _ = st.Insert(ctx, []any{doc{id: i, k: i % 3, n: i % 4}.m()}) })
+		if !ok {
+			*fails = append(*fails, lib.OracleFail{Class: "writer-blocked", What: fmt.Sprintf("insert %d blocked for 20s with %d reading consumers", i, nW)})
+			return
+		}
+	}
+	for wi := 0; wi < nW; wi++ {
+		select {
+		case g := <-res[wi]:
+			if len(g.evs) != n {
+				first := -1
+				for i, e := range g.evs {
+					if e != (ev{i, 0}) {
+						first = i
+						break
+					}
+				}
+				if first < 0 {
+					first = len(g.evs)
+				}
+				*fails = append(*fails, lib.OracleFail{Class: "event-lost", What: fmt.Sprintf("consumer %d reading while the writer made %d inserts: %d events received, the first missing one is the insert of id %d (%s)", wi, n, len(g.evs), first, g.err),
+					Replay: fmt.Sprintf("3 watchers with nil filter, each consumed by its own goroutine (Next, Decode in a loop); one writer inserts ids 0..%d one by one", n-1)})
+				return
+			}
+			for i, e := range g.evs {
+				if e != (ev{i, 0}) {
+					*fails = append(*fails, lib.OracleFail{Class: "event-wrong", What: fmt.Sprintf("consumer %d reading while the writer works: event %d is %v, owed %v", wi, i, e, ev{i, 0})})
+					return
+				}
+			}
+		case <-time.After(60 * time.Second):
+			*fails = append(*fails, lib.OracleFail{Class: "event-lost", What: fmt.Sprintf("consumer %d did not finish", wi)})
+			return
+		}
+		_ = ss[wi].Close(ctx)
+	}
+	c.Extra["busy_consumers_events"] = n * nW
+	c.Count(fmt.Sprintf("busy-%d", n))
+}
+
 func Run(c *lib.Ctx) {
 	c.Rule = "random histories (≤26 ops quick / ≤60 thorough) of watch (filters all | k==v | n>x | o exists | o does not exist, documents with \"o\" absent / null / set and \"n\" an int / a string / absent) / insert / batch insert with duplicates / update / upsert / delete / consumer read / close / cancel on a real store with ≤4 watchers (33–42 in one case in eight), compared line by line with Uniflow.Stream.step and with the harness's own owed-event FIFOs; non-trivial = at least one watcher and ≥3 different operation kinds took effect, distinct by full trace"
 	c.Assumptions = []string{
@@ -641,6 +722,7 @@ func Run(c *lib.Ctx) {
 		c.Count(key)
 	}
 	stalled(c, rng.Fork(), &fails)
+	busy(c, rng.Fork(), &fails)
 	var ms []lib.Mismatch
 	if c.Proof.DriverBuilt {
 		var err error
